@@ -121,6 +121,15 @@ Theorem C04_list_before_move_breaks :
 Proof. exact list_before_move_breaks. Qed.
 Print Assumptions C04_list_before_move_breaks.
 
+(* sanity: pack-names must be replaced atomically -- a truncating (non-atomic) write has a crash point
+   that lists neither the old nor the new packs (on disk: an unreadable pack-names) *)
+Theorem C04_nonatomic_names_write_breaks :
+  forall s l, names s <> [] -> l <> [] ->
+    exists k, let s' := run (firstn k (nonatomic_save_names l)) s in
+              names s' <> names s /\ names s' <> l.
+Proof. exact nonatomic_names_write_breaks. Qed.
+Print Assumptions C04_nonatomic_names_write_breaks.
+
 (* hypotheses are satisfiable: a 2a history of two commits, then a commit with autopack *)
 Example C04_hypotheses_satisfiable :
   good demo_ixs demo_s2 /\
